@@ -40,6 +40,18 @@
 // backwards, no unit missing at the end (repeats are allowed in parallel mode, none in sync mode);
 // every stored frontier's (seq, offset) is the pair of ONE committed unit record.
 //
+// Fault sweeps (fault-N; internal/bisweep/faults.go; standalone double, pipeline and parallel
+// mode): ONE request is answered with an error once (or executed with its connection closed
+// instead of a reply) and the tool's own error handling / retry follows.  (1) every request of the
+// first and second frontier flush of a run (frontier HSET: -OOM, -LOADING, drop; each journal DEL and
+// the index ZREM: -LOADING, drop — -OOM only where Redis refuses, i.e. denyoom commands), in its own
+// re-run; stop; a fresh instance must not resume behind what a fresh instance finds in the state
+// right before the faulted request, and every committed unit is covered by the stored frontier or
+// still has its journal record.  (2) every request of StartPoint's recovery on a journal-only, a
+// frontier+journal and a frontier-only state (request sequence and answer learnt from an unfaulted
+// start on the rebuilt state): StartPoint is called again on the same RedisOutput and must give the
+// unfaulted answer; rest of the stream, stop, fresh instance — judged by the same oracle.
+//
 // Oracle (bisweep.Judge), per DESIGN C14: resume offset R of every start ∈ {unit ends} ∪ {stream
 // start}; every unit ending at or before R is committed (complete target transaction: all business
 // commands of the unit + its record [+ index]); sync mode: R = end of the last committed unit and
@@ -90,13 +102,15 @@ func main() {
 			"switch/migration); restarted runs: every state inside start-up bookkeeping/recovery/migration and between starts exhaustively, traffic-phase states by PRNG (thorough: a third level, PRNG third of its states); exhaustive per observed request sequence, not over schedules; RebuildBisyncFrontier on all "+
 			"subsets of ≤10 surviving journal records (observed states + synthetic windows); clean-stop schedule: PRNG(seed,i) → cancel of the Send context at stream byte n / target request k in mid-traffic, "+
 			"target drained, fresh-start chain; cluster scenarios: PRNG(seed,i) → (held/failing unit, node and lane of every unit, 2–4 lanes, hold point, flush before) for out-of-order acknowledgement + stop and for "+
-			"failed unit + in-process restart, plus gap-closes-last orders and sync-mode resynchronisation under the same run id; distinct = (mode[, other-db], modes of the restarted starts, depth, where the prefix falls: in-unit / between-units / "+
+			"failed unit + in-process restart, plus gap-closes-last orders and sync-mode resynchronisation under the same run id; fault sweeps: every request of two frontier flushes and of start-up recovery on three kinds of states, "+
+			"answered with an error once / connection closed, exhaustive per learnt request sequence; distinct = (mode[, other-db], modes of the restarted starts, depth, where the prefix falls: in-unit / between-units / "+
 			"between-frontier-save-and-journal-delete / inside-recovery[/journal-cleanup] / idle / after-stop, whether the resumed run repeated units)")
 	run.Watchdog(110 * time.Minute)
 	run.Assume("target state after a crash = effects of a prefix of the requests the double executed; an open MULTI block is discarded (fakeredis); business writes are logged, not executed")
 	run.Assume("a restarted instance runs syncer.VerifNewOutput (= syncer.newOutput) against a source double reporting a fixed replication id, then StartPoint, then Send from the returned offset")
 	run.Assume("standalone target: one slot tag, one lane; unit i of the generator = i-th stand-alone write or non-empty MULTI/EXEC group (SELECT/PING/administrative commands/empty transactions form no unit)")
 	run.Assume("mode switches across recovery families are only provoked from states that hold a migration seed (latest record / frontier / journal from seq 1); the refusal to migrate an unseeded namespace is not judged")
+	run.Assume("fault sweeps: exactly one faulted request per run (error reply without execution, or execution with the connection closed); -OOM only on denyoom commands; a one-request -LOADING is a modelling simplification")
 	run.Assume("cluster target: only the directed schedules (held unit + stop; gap closes last; failed unit + in-process restart; sync-mode resync under the same run id) on a stable 3-node double, single-key units; no request-prefix sweep there (a start scans 16384 slot tags)")
 	run.MinDistinct(6)
 
@@ -112,11 +126,14 @@ func main() {
 		links = v
 	}
 	nOoo, nInproc, nSync := run.N(6, 160), run.N(3, 100), run.N(2, 60)
+	nFault := run.N(2, 16)
 	switch os.Getenv("VERIF_C14_ONLY") {
+	case "faults":
+		nBase, directed, nStops, nOoo, nInproc, nSync = 0, false, 0, 0, 0, 0
 	case "stops":
-		nBase, directed, nOoo, nInproc, nSync = 0, false, 0, 0, 0
+		nBase, directed, nOoo, nInproc, nSync, nFault = 0, false, 0, 0, 0, 0
 	case "cluster":
-		nBase, directed, nStops = 0, false, 0
+		nBase, directed, nStops, nFault = 0, false, 0, 0
 	}
 	bisweep.SyntheticSubsets(run)
 	depth := 2
@@ -128,6 +145,7 @@ func main() {
 	clusterDone := make(chan struct{})
 	cluster := func() {
 		defer close(clusterDone)
+		bisweep.FaultSweeps(run, bisweep.FaultOptions{NCases: nFault, Workers: 2, Driver: d, Factory: bisweep.NewStandalone})
 		bisweep.ClusterScenarios(run, bisweep.ClusterOptions{NOutOfOrder: nOoo, NInProcess: nInproc, NSyncResync: nSync, Workers: 6, Driver: d})
 	}
 	few := runtime.GOMAXPROCS(0) < 8
